@@ -45,6 +45,7 @@ def gen_cases(rng, tier):
         ops = []
         nops = rng.randint(3, 12)
         cid = 10
+        curN = spec["method"]["N"]
         transcribed = False
         for _ in range(nops):
             kind = rng.choice(MUTATORS + QUERIES + QUERIES)
@@ -54,13 +55,23 @@ def gen_cases(rng, tier):
                     continue
                 p = rng.choice(spec["params"])
                 from .c09 import rand_value
-                op.update({"name": p["name"], "value": rand_value(rng, p, spec["method"]["N"])})
+                op.update({"name": p["name"], "value": rand_value(rng, p, curN)})
             elif kind == "set_initial":
-                tg = [s for s in spec["controls"]] + [s for s in spec["states"] if spec["method"]["cls"] == "MS"]
-                if not tg:
-                    continue
-                t = rng.choice(tg)
-                op.update({"name": t["name"], "value": ocpgen.rnd(rng, -2, 2)})
+                free = [key for key in ("T", "t0") if spec[key]["kind"] == "free"]
+                if free and rng.random() < 0.4:
+                    key = rng.choice(free)
+                    op.update({"name": key, "value": ocpgen.rnd(rng, 0.3, 3.0, 3) if key == "T" else ocpgen.rnd(rng, -2, 2, 3)})
+                else:
+                    tg = [s for s in spec["controls"]] + [s for s in spec["states"] if spec["method"]["cls"] != "SS"]
+                    tg = [s for s in tg if s["shape"][1] == 1]
+                    if not tg:
+                        continue
+                    t = rng.choice(tg)
+                    if rng.random() < 0.5:
+                        from .c10 import time_expr
+                        op.update({"name": t["name"], "mat": [[time_expr(rng)] for _ in range(t["shape"][0])]})
+                    else:
+                        op.update({"name": t["name"], "value": ocpgen.rnd(rng, -2, 2)})
             elif kind == "subject_to":
                 cid += 1
                 op["constraint"] = ocpgen.gen_constraint(rng, spec, cid, grids=["control", "integrator"], allow_offsets=False)
@@ -73,6 +84,7 @@ def gen_cases(rng, tier):
                 if rng.random() < 0.4:
                     m["grid"] = ocpgen.gen_grid(rng, ["uniform", "geometric"], m["N"])
                 op["method"] = m
+                curN = m["N"]
             elif kind == "solver":
                 op["options"] = {"ipopt.max_iter": rng.choice([0, 1, 2, 3]), "ipopt.print_level": 0, "print_time": False,
                                  "ipopt.hessian_approximation": "limited-memory"}
@@ -85,6 +97,21 @@ def gen_cases(rng, tier):
                     continue
                 op["value"] = ocpgen.rnd(rng, -2, 2, 3)
             ops.append(op)
+        if i % 4 == 3 and (spec["T"]["kind"] == "free" or spec["t0"]["kind"] == "free"):
+            # scenario family: guesses that depend on each other, updated across a transcription
+            from .c10 import time_expr
+            tg = [s for s in spec["controls"]] + [s for s in spec["states"] if spec["method"]["cls"] != "SS"]
+            tg = [s for s in tg if s["shape"][1] == 1]
+            key = "T" if spec["T"]["kind"] == "free" else "t0"
+            if tg:
+                t = rng.choice(tg)
+                scen = [{"op": "set_initial", "name": t["name"], "mat": [[time_expr(rng)] for _ in range(t["shape"][0])]},
+                        {"op": rng.choice(["sample", "solve"])},
+                        {"op": "set_initial", "name": key,
+                         "value": ocpgen.rnd(rng, 0.3, 3.0, 3) if key == "T" else ocpgen.rnd(rng, -2, 2, 3)},
+                        {"op": "sample"}]
+                pos = rng.randint(0, len(ops))
+                ops = [o for o in ops[:pos] if o["op"] != "method"] + scen + ops[pos:]
         if not any(o["op"] in QUERIES for o in ops):
             ops.insert(rng.randint(0, len(ops)), {"op": "sample"})
         ops.append({"op": rng.choice(["sample", "solve"])})
@@ -103,8 +130,9 @@ def apply_shadow(shadow, op):
             if p["name"] == op["name"]:
                 p["value"] = op["value"]
     elif k == "set_initial":
-        shadow["initial"] = [g for g in shadow.get("initial", []) if g["target"] != op["name"]] + [
-            {"target": op["name"], "kind": "const", "val": op["value"]}]
+        g_new = ({"target": op["name"], "kind": "expr", "mat": op["mat"]} if "mat" in op else
+                 {"target": op["name"], "kind": "const", "val": op["value"]})
+        shadow["initial"] = [g for g in shadow.get("initial", []) if g["target"] != op["name"]] + [g_new]
     elif k == "subject_to":
         shadow["constraints"] = shadow["constraints"] + [op["constraint"]]
     elif k == "clear_constraints":
@@ -204,7 +232,8 @@ def run_case(case):
                 if k == "set_value":
                     ocp.set_value(b.syms[op["name"]], build.param_value({"value": op["value"]}))
                 elif k == "set_initial":
-                    ocp.set_initial(b.syms[op["name"]], op["value"])
+                    tgt = ocp.T if op["name"] == "T" else (ocp.t0 if op["name"] == "t0" else b.syms[op["name"]])
+                    ocp.set_initial(tgt, b.ca_mat(op["mat"]) if "mat" in op else op["value"])
                 elif k == "subject_to":
                     build.declare_constraint(b, op["constraint"])
                 elif k == "clear_constraints":
